@@ -136,13 +136,24 @@ Section Eval.
     | _, _ => Stuck "binop: operand kinds"
     end.
 
-  Definition both_ptr (a b : val) : bool :=
-    match a with VPtr _ => match b with VPtr _ => true | _ => false end | _ => false end.
+  (* `f(args)` where f is a local variable holding a closure value *)
+  Definition called_closure (f : string) (en : env) : option val :=
+    match lookup f en with
+    | Some (VCtor d a) => if String.eqb d "Closure" then Some (VCtor d a) else None
+    | _ => None
+    end.
+
+  (* raw pointers, and raw pointers cast to integers (`p as usize`): addresses the evaluator cannot
+     compute with -- comparing or subtracting two of them is a question to the world *)
+  Definition is_addr (a : val) : bool :=
+    match a with VPtr _ => true | VCtor d _ => String.eqb d "Addr" | _ => false end.
+  Definition both_ptr (a b : val) : bool := is_addr a && is_addr b.
 
   (* comparison of two raw pointers is a question to the world (provenance) *)
   Definition ptr_cmp_name (op : binop) : string :=
     match op with
     | Lt => "ptr:lt" | Le => "ptr:le" | Gt => "ptr:gt" | Ge => "ptr:ge" | Eq => "ptr:eq" | Ne => "ptr:ne"
+    | Sub => "ptr:sub"
     | _ => "ptr:arith"
     end.
 
@@ -300,6 +311,9 @@ Section Eval.
           eval_expr fuel s en w kr (fun v w => eval_arms fuel v arms en w kr k)
       | ECall f args =>
           eval_args fuel args en w kr (fun vs w =>
+            match called_closure f en with
+            | Some c => prim "call" (c :: vs) w k          (* a closure parameter is called: the world runs it *)
+            | None =>
             match builtin f vs with
             | Some o => kont o w k
             | None =>
@@ -308,6 +322,7 @@ Section Eval.
                     exec_block fuel (fn_body fa) (rev (combine (fn_params fa) vs)) w k (fun v _ w => k v w)
                 | None => prim f vs w k
                 end
+            end
             end)
       | EField a f =>
           eval_expr fuel a en w kr (fun va w =>
